@@ -83,6 +83,13 @@ def run(ctx):
                 prior = "box" if opt.get("bounds") else ctx.rng.choice(["normal", "box"])
                 nan_above = 3.0 if ctx.rng.random() < 0.3 else None
                 tgt = sd.Target(dims, s=ctx.rng.choice([0.5, 1.0, 2.0]), c=0.3, prior=prior, nan_above=nan_above)
+                # the user's model answers in ANOTHER namespace than the samples (a torch model under NumPy / JAX samples, a NumPy model
+                # under torch samples): what the kernel evaluates is still the tempered density
+                if rot % 5 == 2 and pre != "flow" and kind != "blackjax_smc":
+                    if nsname == "torch":
+                        tgt.answers_in = "float64"
+                    else:
+                        tgt.answers_ns = "torch"
                 if opt.get("periodic"):
                     tgt.shift0 = 6.0            # periodic interval [1, 11): the wrap must act on the parameter, not on its standardised value
                 # a proposal without support far out (log q = -inf there): at beta = 1 the proposal term is 0 * (-inf)
@@ -162,7 +169,8 @@ def run(ctx):
                 key = (kind, pre, json.dumps(pkw, sort_keys=True), json.dumps(opt, sort_keys=True), nsname, dims, beta)
                 nontriv = bool(np.any(np.isfinite(got)))
                 ctx.count(key, nontriv, kind=f"{kind}/{pre}/{'+'.join(sorted((pkw or {}).keys())) or '-'}/{nsname}" + ("/float32" if f32 else ""))
-                rep_base = {"kind": kind, "preconditioning": pre, "kwargs": pkw, "options": opt, "ns": nsname, "dims": dims, "beta": beta, "dtype": "float32" if f32 else "float64"}
+                rep_base = {"kind": kind, "preconditioning": pre, "kwargs": pkw, "options": opt, "ns": nsname, "dims": dims, "beta": beta, "dtype": "float32" if f32 else "float64",
+                            "model_answers_in": tgt.answers_ns or tgt.answers_in}
                 with np.errstate(all="ignore"):
                     if kind in ("minipcn", "emcee"):
                         want = Lx + Px + lji
